@@ -53,6 +53,7 @@ func (i *vIdP) refreshTo(email string, tokLen int) {
 func driveC11(t *testing.T, out *vEmitter) {
 	// interleavings of a sign-out with a concurrent refreshing request (scheduler of C12)
 	vExploreSignOutRaces(t, out, vSchedEnv(t))
+	vExploreSignOutFlaky(t, out, vSchedEnv(t))
 
 	type cfg struct {
 		name    string
